@@ -54,11 +54,11 @@ def load_known(prop):
 
 
 def load_ledger(prop):
-    p = os.path.join(VERIF, "baseline", "ledger.json")
+    p = os.path.join(VERIF, "baseline", "ledger", f"{prop}.json")
     if not os.path.exists(p):
         return {}
     with open(p) as f:
-        return json.load(f).get(prop, {})
+        return json.load(f)
 
 
 def run_replay(path):
@@ -192,14 +192,9 @@ def main(argv=None):
     n_proved = sum(1 for o in obligations if o["status"] == "PROVED")
     wall = time.time() - t0
     if a.write_ledger:
-        p = os.path.join(VERIF, "baseline", "ledger.json")
-        data = {}
-        if os.path.exists(p):
-            with open(p) as f:
-                data = json.load(f)
-        data[prop] = {o["name"]: o["status"] for o in obligations}
-        with open(p, "w") as f:
-            json.dump(data, f, indent=1, sort_keys=True)
+        os.makedirs(os.path.join(VERIF, "baseline", "ledger"), exist_ok=True)
+        with open(os.path.join(VERIF, "baseline", "ledger", f"{prop}.json"), "w") as f:
+            json.dump({o["name"]: o["status"] for o in obligations}, f, indent=0, sort_keys=True)
     # ---- evidence
     per_backend = {}
     solver_ms = 0.0
@@ -254,7 +249,7 @@ def main(argv=None):
         "wall_s": round(wall, 3),
         "violations": len(violations),
     }
-    if not a.only:
+    if not a.only and not os.environ.get("PYVC_NO_EVIDENCE"):
         os.makedirs(os.path.join(VERIF, "evidence"), exist_ok=True)
         with open(os.path.join(VERIF, "evidence", f"{prop}.json"), "w") as f:
             json.dump(ev, f, indent=1, default=str)
